@@ -1,5 +1,6 @@
 import ScriggoV.Lemmas.PathsExpand
 import ScriggoV.Lemmas.PathsFuel
+import ScriggoV.Gen.PathSites
 /-! C18 — template file loading stays inside the file system and terminates.
 
 Property theorems only, over the models of `Model/Paths.lean` (`validTemplatePath`, `rooted`,
@@ -123,24 +124,24 @@ theorem rooted_preserves_valid : ∀ parent n r : Bytes, ValidRooted parent → 
 `|files| + 1` the model never runs out of fuel (the `paths` stack holds distinct existing
 files, so `|files| − |paths|` decreases at every nested `parseSource`), and no checked index
 faults — for every file map and every root name. -/
-theorem expand_terminates (fm : FileMap) (root : Bytes) :
-    (parseTemplate fm root).2 ≠ .error .outOfFuel ∧
-    ∀ f, (parseTemplate fm root).2 ≠ .error (.fault f) := by
-  have := parseTemplateFuel_post (P := fun _ => True) rooted_preserves_true root trivial (fm.length + 1) (by omega)
-    (parseTemplate fm root).1 (parseTemplate fm root).2 rfl
+theorem expand_terminates {tbl : SiteTable} (htbl : Guarded tbl) (fm : FileMap) (root : Bytes) :
+    (parseTemplate tbl fm root).2 ≠ .error .outOfFuel ∧
+    ∀ f, (parseTemplate tbl fm root).2 ≠ .error (.fault f) := by
+  have := parseTemplateFuel_post htbl (P := fun _ => True) rooted_preserves_true root trivial (fm.length + 1) (by omega)
+    (parseTemplate tbl fm root).1 (parseTemplate tbl fm root).2 rfl
   exact ⟨this.noFuel, this.noFault⟩
 
 /-- any larger amount of fuel is not exhausted either -/
-theorem fuel_suffices (fm : FileMap) (root : Bytes) (fuel : Nat) (h : fm.length ≤ fuel) :
-    (parseTemplateFuel fm fuel root).2 ≠ .error .outOfFuel :=
-  (parseTemplateFuel_post (P := fun _ => True) rooted_preserves_true root trivial fuel h _ _ rfl).noFuel
+theorem fuel_suffices {tbl : SiteTable} (htbl : Guarded tbl) (fm : FileMap) (root : Bytes) (fuel : Nat) (h : fm.length ≤ fuel) :
+    (parseTemplateFuel tbl fm fuel root).2 ≠ .error .outOfFuel :=
+  (parseTemplateFuel_post htbl (P := fun _ => True) rooted_preserves_true root trivial fuel h _ _ rfl).noFuel
 
 /-- the answer does not depend on the fuel: every amount of at least `|files|` gives the answer
 of `parseTemplate` (so the bound is not what makes the model stop) -/
-theorem fuel_irrelevant (fm : FileMap) (root : Bytes) (fuel : Nat) (h : fm.length ≤ fuel) :
-    parseTemplateFuel fm fuel root = parseTemplate fm root := by
-  have h1 := parseTemplateFuel_mono fm fm.length (fuel - fm.length) root (fuel_suffices fm root _ (by omega))
-  have h2 := parseTemplateFuel_mono fm fm.length 1 root (fuel_suffices fm root _ (by omega))
+theorem fuel_irrelevant {tbl : SiteTable} (htbl : Guarded tbl) (fm : FileMap) (root : Bytes) (fuel : Nat) (h : fm.length ≤ fuel) :
+    parseTemplateFuel tbl fm fuel root = parseTemplate tbl fm root := by
+  have h1 := parseTemplateFuel_mono tbl fm fm.length (fuel - fm.length) root (fuel_suffices htbl fm root _ (by omega))
+  have h2 := parseTemplateFuel_mono tbl fm fm.length 1 root (fuel_suffices htbl fm root _ (by omega))
   have e : fm.length + (fuel - fm.length) = fuel := by omega
   rw [e] at h1
   unfold parseTemplate
@@ -149,16 +150,16 @@ theorem fuel_irrelevant (fm : FileMap) (root : Bytes) (fuel : Nat) (h : fm.lengt
 /-- **opened_valid.** If the root name is a valid rooted path, every name passed to `Open` is
 a valid file system path other than `.` (hence inside the root, see `validRooted_inside`) —
 whatever the outcome of the build. -/
-theorem opened_valid (fm : FileMap) (root : Bytes) (hroot : ValidRooted root) :
-    ∀ n ∈ (parseTemplate fm root).1.opens, ValidRooted n :=
-  (parseTemplateFuel_post (P := ValidRooted) rooted_preserves_valid root hroot (fm.length + 1) (by omega)
+theorem opened_valid {tbl : SiteTable} (htbl : Guarded tbl) (fm : FileMap) (root : Bytes) (hroot : ValidRooted root) :
+    ∀ n ∈ (parseTemplate tbl fm root).1.opens, ValidRooted n :=
+  (parseTemplateFuel_post htbl (P := ValidRooted) rooted_preserves_valid root hroot (fm.length + 1) (by omega)
     _ _ rfl).weak.1
 
 /-- **opened_at_most_once.** In the trace of `Open` calls every existing file appears at most
 once (the `trees` cache and the `paths` stack), whatever the outcome of the build. -/
-theorem opened_at_most_once (fm : FileMap) (root : Bytes) :
-    ∀ n, fm.lookup n ≠ none → (parseTemplate fm root).1.opens.count n ≤ 1 :=
-  (parseTemplateFuel_post (P := fun _ => True) rooted_preserves_true root trivial (fm.length + 1) (by omega)
+theorem opened_at_most_once {tbl : SiteTable} (htbl : Guarded tbl) (fm : FileMap) (root : Bytes) :
+    ∀ n, fm.lookup n ≠ none → (parseTemplate tbl fm root).1.opens.count n ≤ 1 :=
+  (parseTemplateFuel_post htbl (P := fun _ => True) rooted_preserves_true root trivial (fm.length + 1) (by omega)
     _ _ rfl).weak.2
 
 /-! ### cycles -/
@@ -168,9 +169,9 @@ theorem opened_at_most_once (fm : FileMap) (root : Bytes) :
 
 /-- **cycle detection is immediate**: a reference that resolves to a file on the `paths`
 stack is answered with a `CycleError` for that file, without calling `Open`. -/
-theorem cycle_detected (fm : FileMap) (fuel : Nat) (parent name : Bytes) (paths : List Bytes)
+theorem cycle_detected (tbl : SiteTable) (fm : FileMap) (fuel : Nat) (parent name : Bytes) (paths : List Bytes)
     (st : St) (ref : Ref) (hr : rooted parent ref.path = .ok name) (hin : name ∈ parent :: paths) :
-    parseNodeFile fm (fuel + 1) (parent :: paths) st ref = (st, .error (.cycle name [])) := by
+    parseNodeFile tbl fm (fuel + 1) (parent :: paths) st ref = (st, .error (.cycle name [])) := by
   have : (parent :: paths).contains name = true := by simpa using hin
   unfold parseNodeFile
   simp only [List.head?_cons, hr, this, if_true]
@@ -178,11 +179,11 @@ theorem cycle_detected (fm : FileMap) (fuel : Nat) (parent name : Bytes) (paths 
 /-- **ok_acyclic.** After a successful build the files that were loaded are ordered: there is
 a rank that every reference between loaded existing files strictly decreases, and the target of
 every such reference was loaded. -/
-theorem ok_acyclic (fm : FileMap) (root : Bytes) (st : St)
-    (h : parseTemplate fm root = (st, .ok ())) :
+theorem ok_acyclic {tbl : SiteTable} (htbl : Guarded tbl) (fm : FileMap) (root : Bytes) (st : St)
+    (h : parseTemplate tbl fm root = (st, .ok ())) :
     ∃ rank : Bytes → Nat, ∀ a b, (a = root ∨ a ∈ tkeys st.trees) → Edge fm a b →
       b ∈ tkeys st.trees ∧ rank b < rank a := by
-  have post := parseTemplateFuel_post (P := fun _ => True) rooted_preserves_true root trivial (fm.length + 1)
+  have post := parseTemplateFuel_post htbl (P := fun _ => True) rooted_preserves_true root trivial (fm.length + 1)
     (by omega) st (.ok ()) h
   obtain ⟨hst, htgt⟩ := post.ok rfl
   have hrootnot : root ∉ tkeys st.trees := hst.disj root (by simp)
@@ -210,10 +211,10 @@ the root file (or goes through it), the build does not succeed: together with
 error: the `CycleError` of `cycle_detected`, unless another error of the same traversal —
 a missing file, an invalid path, an extends in a rendered file, … — comes first; see
 `cycle_reported_pure` for the case where nothing else can go wrong.) -/
-theorem cycle_reported (fm : FileMap) (root a : Bytes) (hreach : a = root ∨ Reach fm root a)
-    (hcycle : Reach fm a a) : ∀ st, parseTemplate fm root ≠ (st, .ok ()) := by
+theorem cycle_reported {tbl : SiteTable} (htbl : Guarded tbl) (fm : FileMap) (root a : Bytes) (hreach : a = root ∨ Reach fm root a)
+    (hcycle : Reach fm a a) : ∀ st, parseTemplate tbl fm root ≠ (st, .ok ()) := by
   intro st h
-  obtain ⟨rank, hrank⟩ := ok_acyclic fm root st h
+  obtain ⟨rank, hrank⟩ := ok_acyclic htbl fm root st h
   have hstep : ∀ x y, Reach fm x y → (x = root ∨ x ∈ tkeys st.trees) →
       y ∈ tkeys st.trees ∧ rank y < rank x := by
     intro x y hxy
@@ -233,74 +234,155 @@ theorem cycle_reported (fm : FileMap) (root a : Bytes) (hreach : a = root ∨ Re
 
 /-- **a reported cycle is real**: the file named by a `CycleError` lies on a cycle of
 references between existing files. -/
-theorem cycle_error_sound (fm : FileMap) (root : Bytes) (st : St) (p : Bytes)
-    (c : List (Kind × Bytes)) (h : parseTemplate fm root = (st, .error (.cycle p c))) :
+theorem cycle_error_sound {tbl : SiteTable} (htbl : Guarded tbl) (fm : FileMap) (root : Bytes) (st : St) (p : Bytes)
+    (c : List (Kind × Bytes)) (h : parseTemplate tbl fm root = (st, .error (.cycle p c))) :
     Reach fm p p :=
-  (parseTemplateFuel_post (P := fun _ => True) rooted_preserves_true root trivial (fm.length + 1)
+  (parseTemplateFuel_post htbl (P := fun _ => True) rooted_preserves_true root trivial (fm.length + 1)
     (by omega) st _ h).cyc p c rfl
 
 /-- **cycle_reported, when nothing else can go wrong.** In a file map where every reference is
 a plain render with an accepted path that resolves to an existing file, a build from an
 existing root with a cycle in reach ends in a `CycleError` (and that error names a file on a
 cycle); without a cycle in reach it succeeds or — never — anything else. -/
-theorem cycle_reported_pure (fm : FileMap) (root a : Bytes) (hpure : Pure fm)
+theorem cycle_reported_pure {tbl : SiteTable} (htbl : Guarded tbl) (fm : FileMap) (root a : Bytes) (hpure : Pure fm)
     (hkey : fm.lookup root ≠ none)
     (hname : (root == dotSeg || root.getLast? == some 47) = false)
     (hreach : a = root ∨ Reach fm root a) (hcycle : Reach fm a a) :
-    ∃ st p c, parseTemplate fm root = (st, .error (.cycle p c)) ∧ Reach fm p p := by
-  have post := parseTemplateFuel_post (P := fun _ => True) rooted_preserves_true root trivial
-    (fm.length + 1) (by omega) (parseTemplate fm root).1 (parseTemplate fm root).2 rfl
+    ∃ st p c, parseTemplate tbl fm root = (st, .error (.cycle p c)) ∧ Reach fm p p := by
+  have post := parseTemplateFuel_post htbl (P := fun _ => True) rooted_preserves_true root trivial
+    (fm.length + 1) (by omega) (parseTemplate tbl fm root).1 (parseTemplate tbl fm root).2 rfl
   rcases post.pure hpure with (hok | ⟨p, c, hc⟩) | hinv | hne
-  · exact absurd (show parseTemplate fm root = ((parseTemplate fm root).1, .ok ()) by rw [← hok])
-      (cycle_reported fm root a hreach hcycle _)
-  · exact ⟨(parseTemplate fm root).1, p, c, by rw [← hc], post.cyc p c hc⟩
+  · exact absurd (show parseTemplate tbl fm root = ((parseTemplate tbl fm root).1, .ok ()) by rw [← hok])
+      (cycle_reported htbl fm root a hreach hcycle _)
+  · exact ⟨(parseTemplate tbl fm root).1, p, c, by rw [← hc], post.cyc p c hc⟩
   · have := post.invalid hinv
     rw [hname] at this; cases this
   · exact absurd (post.notExist hne) hkey
 
 /-- in a pure file map the only outcomes are success and `CycleError` -/
-theorem pure_ok_or_cycle (fm : FileMap) (root : Bytes) (hpure : Pure fm)
+theorem pure_ok_or_cycle {tbl : SiteTable} (htbl : Guarded tbl) (fm : FileMap) (root : Bytes) (hpure : Pure fm)
     (hkey : fm.lookup root ≠ none)
     (hname : (root == dotSeg || root.getLast? == some 47) = false) :
-    OkOrCycle (parseTemplate fm root).2 := by
-  have post := parseTemplateFuel_post (P := fun _ => True) rooted_preserves_true root trivial
-    (fm.length + 1) (by omega) (parseTemplate fm root).1 (parseTemplate fm root).2 rfl
+    OkOrCycle (parseTemplate tbl fm root).2 := by
+  have post := parseTemplateFuel_post htbl (P := fun _ => True) rooted_preserves_true root trivial
+    (fm.length + 1) (by omega) (parseTemplate tbl fm root).1 (parseTemplate tbl fm root).2 rfl
   rcases post.pure hpure with h | hinv | hne
   · exact h
   · have := post.invalid hinv
     rw [hname] at this; cases this
   · exact absurd (post.notExist hne) hkey
 
+/-! ## the parse sites
+
+The theorems above hold for every table `tbl : Site → Guard` that does something at every site
+(`Guarded tbl`).  The table of the real parser is **generated** (`Gen/PathSites.lean`): one entry
+per path-taking statement (extends / import / render) and per value of `end` the statement
+parser can be entered with — `{% … %}`, a statement of a `{%% … %%}` block (plain or grouped
+import), end of file — computed from the `if end == …`/`switch end` that leads to the node
+constructor.  A case that is forgotten there is an entry `Guard.none` and `sites_guarded` fails. -/
+
+/-- **sites_guarded** (fact about the source, by a look at the whole generated table): every
+case of the end-token switch / if in `parse` (extends), `parseImport` and `parseExpr` (render)
+that yields a path node calls `ValidTemplatePath` (or `validatePackagePath`, for programs). -/
+theorem sites_guarded : Guarded Gen.PathSites.guard :=
+  guarded_of_check _ (by decide)
+
+/-- in a template file every site checks with `ValidTemplatePath` itself; `validatePackagePath`
+is what the import of a program or script goes through -/
+theorem template_sites_validate :
+    ∀ s ∈ [Site.extStmt, .extStmts, .impStmt, .impStmts, .renShow, .renStmt, .renStmts, .renEOF],
+      Gen.PathSites.guard s = .template := by decide
+
+theorem program_import_site : Gen.PathSites.guard .impEOF = .package := by decide
+
+/-- the statement parser is entered with exactly the three end tokens the sites are made of -/
+theorem parse_ends_known :
+    Gen.PathSites.parseEnds = ["tokenEOF", "tokenEndStatement", "tokenEndStatements"] := by decide
+
+/-- whatever passes the guard of a site of the real parser is a valid template path — for
+every site, i.e. wherever and however the statement is written -/
+theorem site_accepts_only_valid (s : Site) (path : Bytes)
+    (h : guardCheck (Gen.PathSites.guard s) path = .ok true) : validTemplatePath path = .ok true :=
+  guardCheck_ok (sites_guarded s) h
+
+/-- … and an invalid path is a syntax error of the file that contains it, naming the kind of
+statement: the parser's check of a file fails exactly when some reference has an invalid path,
+independently of the sites the references are written at -/
+theorem invalid_path_is_error (refs : List Ref) :
+    checkRefs Gen.PathSites.guard refs = .ok () ↔ ∀ r ∈ refs, validTemplatePath r.path = .ok true :=
+  checkRefs_guarded_iff sites_guarded refs
+
+theorem invalid_path_error_kind (refs : List Ref) (e : Err)
+    (h : checkRefs Gen.PathSites.guard refs = .error e) : ∃ k, e = .syntax (.invalidRefPath k) :=
+  checkRefs_error _ refs e h
+
+/-- **only_valid_paths_reach_open.** With the parser as it is in /repo (the generated table of
+its parse sites), for every file map — every statement kind at every syntactic position in
+every file — and every valid root name: every name passed to `Open` is a valid file system path
+other than `.`, hence inside the root (`validRooted_inside`); every existing file is opened at
+most once; and the build terminates without fault. -/
+theorem only_valid_paths_reach_open (fm : FileMap) (root : Bytes) (hroot : ValidRooted root) :
+    (∀ n ∈ (parseTemplate Gen.PathSites.guard fm root).1.opens, ValidRooted n) ∧
+    (∀ n, fm.lookup n ≠ none → (parseTemplate Gen.PathSites.guard fm root).1.opens.count n ≤ 1) ∧
+    (parseTemplate Gen.PathSites.guard fm root).2 ≠ .error .outOfFuel ∧
+    ∀ f, (parseTemplate Gen.PathSites.guard fm root).2 ≠ .error (.fault f) :=
+  ⟨opened_valid sites_guarded fm root hroot, opened_at_most_once sites_guarded fm root,
+    (expand_terminates sites_guarded fm root).1, (expand_terminates sites_guarded fm root).2⟩
+
+/-- the table a parser would have that forgot the `{%% … %%}` case of the import: used only to
+show that the hypothesis `Guarded` carries weight -/
+def forgetfulTable : SiteTable
+  | .impStmts => .none
+  | s => SiteTable.ideal s
+
+/-- **the hypothesis is needed**: with one unguarded site the model itself passes a name outside
+the root to `Open` — `{%% import "/../s" %%}` in the file `a` opens `../s`. -/
+theorem unguarded_site_escapes :
+    ∃ (fm : FileMap) (root : Bytes), ValidRooted root ∧
+      ¬ ∀ n ∈ (parseTemplate forgetfulTable fm root).1.opens, ValidRooted n := by
+  refine ⟨[([97], [⟨.imp, false, [47, 46, 46, 47, 115], .impStmts⟩])], [97], ⟨by decide, by decide⟩, ?_⟩
+  intro h
+  have h1 : [46, 46, 47, 115] ∈ (parseTemplate forgetfulTable
+      [([97], [⟨.imp, false, [47, 46, 46, 47, 115], .impStmts⟩])] [97]).1.opens := by decide
+  have := (h _ h1).1
+  revert this
+  decide
+
+-- the same file with the guarded table: a syntax error, and only the root is opened
+example : parseTemplate Gen.PathSites.guard [([97], [⟨.imp, false, [47, 46, 46, 47, 115], .impStmts⟩])] [97]
+    = ({ trees := [], canExtend := true, opens := [[97]], missingImport := false },
+       .error (.syntax (.invalidRefPath .imp))) := by rfl
+
 -- non-vacuity: a three-file cycle a → b/c → a reported as a cycle with its chain, each file
 -- opened once; and a shared partial opened once
-example : parseTemplate
-    [([97], [⟨.ren, false, [98, 47, 99]⟩]), ([98, 47, 99], [⟨.imp, false, [46, 46, 47, 97]⟩])] [97]
+example : parseTemplate .ideal
+    [([97], [⟨.ren, false, [98, 47, 99], .renShow⟩]), ([98, 47, 99], [⟨.imp, false, [46, 46, 47, 97], .impStmt⟩])] [97]
     = ({ trees := [], canExtend := false, opens := [[98, 47, 99], [97]], missingImport := false },
        .error (.cycle [97] [(.ren, [98, 47, 99]), (.imp, [97])])) := by rfl
 
-example : (parseTemplate
-    [([97], [⟨.ren, false, [98]⟩, ⟨.ren, false, [99]⟩, ⟨.ren, false, [47, 98]⟩]),
-     ([98], [⟨.ren, false, [99]⟩]), ([99], [])] [97]).1.opens = [[99], [98], [97]] ∧
-    (parseTemplate
-    [([97], [⟨.ren, false, [98]⟩, ⟨.ren, false, [99]⟩, ⟨.ren, false, [47, 98]⟩]),
-     ([98], [⟨.ren, false, [99]⟩]), ([99], [])] [97]).2 = .ok () := ⟨by rfl, by rfl⟩
+example : (parseTemplate .ideal
+    [([97], [⟨.ren, false, [98], .renShow⟩, ⟨.ren, false, [99], .renShow⟩, ⟨.ren, false, [47, 98], .renShow⟩]),
+     ([98], [⟨.ren, false, [99], .renShow⟩]), ([99], [])] [97]).1.opens = [[99], [98], [97]] ∧
+    (parseTemplate .ideal
+    [([97], [⟨.ren, false, [98], .renShow⟩, ⟨.ren, false, [99], .renShow⟩, ⟨.ren, false, [47, 98], .renShow⟩]),
+     ([98], [⟨.ren, false, [99], .renShow⟩]), ([99], [])] [97]).2 = .ok () := ⟨by rfl, by rfl⟩
 
 -- an escaping render is a syntax error of the referencing file and nothing is opened for it;
 -- an escaping `render … default` and an escaping import are skipped (the import is then left
 -- to the type checker, which does not find a package of that name)
-example : parseTemplate
-    [([97, 47, 102], [⟨.imp, false, [46, 46, 47, 46, 46, 47, 103]⟩, ⟨.ren, true, [46, 46, 47, 46, 46, 47, 103]⟩,
-      ⟨.ren, false, [46, 46, 47, 46, 46, 47, 103]⟩]), ([103], [])] [97, 47, 102]
+example : parseTemplate .ideal
+    [([97, 47, 102], [⟨.imp, false, [46, 46, 47, 46, 46, 47, 103], .impStmt⟩, ⟨.ren, true, [46, 46, 47, 46, 46, 47, 103], .renShow⟩,
+      ⟨.ren, false, [46, 46, 47, 46, 46, 47, 103], .renShow⟩]), ([103], [])] [97, 47, 102]
     = ({ trees := [], canExtend := false, opens := [[97, 47, 102]], missingImport := true },
        .error (.syntax (.renderNotExist []))) := by rfl
 
 -- non-vacuity of `cycle_reported_pure`: a pure file map with a two-file cycle in reach
-example : Pure [([97], [⟨.ren, false, [98]⟩]), ([98], [⟨.ren, false, [47, 97]⟩])] ∧
-    Reach [([97], [⟨.ren, false, [98]⟩]), ([98], [⟨.ren, false, [47, 97]⟩])] [97] [97] := by
-  have e1 : Edge [([97], [⟨.ren, false, [98]⟩]), ([98], [⟨.ren, false, [47, 97]⟩])] [97] [98] :=
-    ⟨[⟨.ren, false, [98]⟩], ⟨.ren, false, [98]⟩, by rfl, by simp, by rfl, by simp [IsKey, List.lookup]⟩
-  have e2 : Edge [([97], [⟨.ren, false, [98]⟩]), ([98], [⟨.ren, false, [47, 97]⟩])] [98] [97] :=
-    ⟨[⟨.ren, false, [47, 97]⟩], ⟨.ren, false, [47, 97]⟩, by rfl, by simp, by rfl,
+example : Pure [([97], [⟨.ren, false, [98], .renShow⟩]), ([98], [⟨.ren, false, [47, 97], .renShow⟩])] ∧
+    Reach [([97], [⟨.ren, false, [98], .renShow⟩]), ([98], [⟨.ren, false, [47, 97], .renShow⟩])] [97] [97] := by
+  have e1 : Edge [([97], [⟨.ren, false, [98], .renShow⟩]), ([98], [⟨.ren, false, [47, 97], .renShow⟩])] [97] [98] :=
+    ⟨[⟨.ren, false, [98], .renShow⟩], ⟨.ren, false, [98], .renShow⟩, by rfl, by simp, by rfl, by simp [IsKey, List.lookup]⟩
+  have e2 : Edge [([97], [⟨.ren, false, [98], .renShow⟩]), ([98], [⟨.ren, false, [47, 97], .renShow⟩])] [98] [97] :=
+    ⟨[⟨.ren, false, [47, 97], .renShow⟩], ⟨.ren, false, [47, 97], .renShow⟩, by rfl, by simp, by rfl,
       by simp [IsKey, List.lookup]⟩
   refine ⟨?_, .trans e1 (.step e2)⟩
   intro a refs hl r hr
